@@ -1,3 +1,3 @@
 Require Import Extraction ExtrOcamlBasic.
-Require Import P.ParseModel P.ParsePrintModel P.ParseDecl P.ParseInterp P.ParseUsed P.ParseHeader P.ParseBody.
-Extraction "parse_model.ml" next_type pr pr_cat parse_data attrs_skip attrs_recurse attrs_all_setters attrs_map_strategy attrs_collection_type attrs_setter attrs_expose used_lifetimes array_lens wraps_list headers type_defs.
+Require Import P.ParseModel P.ParsePrintModel P.ParseDecl P.ParseInterp P.ParseUsed P.ParseHeader P.ParseBody G.DeclShape.
+Extraction "parse_model.ml" next_type pr pr_cat parse_data attrs_skip attrs_recurse attrs_all_setters attrs_map_strategy attrs_collection_type attrs_setter attrs_expose used_lifetimes array_lens wraps_list headers type_defs shape_of.
